@@ -1003,6 +1003,35 @@ example (sc : Commute.Script) : ∃ s, stabRun exG.ne exG.np .zero [] ((exG.sops
       (some (Hilbert.tabRho (exG.ne + exG.np) (Tab.ket0 (exG.ne + exG.np)), sc)) = some (Hilbert.tabRho (exG.ne + exG.np) s.t, sc) :=
   density_matrix_semantics_is_rho_of_compiled_tableau exG exG_good exG_arity exG_gates [1, 2, 3, 4] .zero [] sc (by decide)
 
+/-- **every operation of the compile sequence, in the density-matrix semantics, refines the tableau API of C07 with Born
+    weights**: on `c · ρ(t)` (valid tableau, real stabilizer rows) it returns `(c · w) · ρ(t')`, where `t'` is the tableau after
+    the API calls the operation makes (`Commute.apiPs`: row maps for gates, `z_measurement_gate` with the recorded outcome, the
+    classically controlled correction / reset flip iff the recorded outcome is 1) and `w` (`Commute.weightPs`) the product of the
+    Born probabilities of the recorded outcomes — `0`, i.e. the zero matrix, iff a recorded outcome cannot occur.  Validity and
+    realness of `t'` are part of the statement, so the theorem chains along a compile sequence. -/
+theorem density_matrix_operation_refines_tableau_api (ne np : Nat) (a : SOp) (d : Commute.Dec)
+    (hd : Commute.decode ne np a = some d) (t : Tab) (hn : t.n = ne + np) (hv : t.Valid) (hr : t.StabReal)
+    (sc : Commute.Script) (hhas : d.has sc) (hok : ∀ p ∈ d.prims (d.out sc), Commute.primOk (ne + np) p = true) (c : ℂ) :
+    Commute.appD ne np a (some (c • Hilbert.tabRho (ne + np) t, sc)) =
+      some ((c * Commute.weightPs (d.prims (d.out sc)) t) • Hilbert.tabRho (ne + np) (Commute.apiPs (d.prims (d.out sc)) t),
+        d.pop sc) ∧
+    (Commute.apiPs (d.prims (d.out sc)) t).Valid ∧ (Commute.apiPs (d.prims (d.out sc)) t).StabReal ∧
+    (Commute.apiPs (d.prims (d.out sc)) t).n = ne + np :=
+  Commute.appD_api ne np a d hd t hn hv hr sc hhas hok c
+
+/-- its hypotheses are met: `ClassicalCNOT(p0 → p1)` on two photons with recorded outcome 1 decodes to
+    `[measure p0 ↦ 1, X p1]`, both within range, and an outcome is supplied -/
+example : ∃ d, Commute.decode 0 2 ⟨.node .ccnot [⟨.p, 0⟩, ⟨.p, 1⟩] [0], [⟨.p, 0⟩, ⟨.p, 1⟩]⟩ = some d ∧
+    d.has (fun _ => [true]) ∧ d.prims (d.out (fun _ => [true])) = [.meas 0 true, .x 1] ∧
+    ∀ p ∈ d.prims (d.out (fun _ => [true])), Commute.primOk 2 p = true := by
+  refine ⟨_, rfl, ?_, rfl, ?_⟩
+  · show (fun _ : Reg => [true]) ⟨.p, 0⟩ ≠ []
+    simp
+  · intro p hp
+    have : p ∈ [Tab.Op.meas 0 true, Tab.Op.x 1] := hp
+    simp only [List.mem_cons, List.not_mem_nil, or_false] at this
+    rcases this with rfl | rfl <;> rfl
+
 /-- the hypotheses of `density_matrix_measurement_is_born_weighted_tableau_measurement` are met by `|00⟩` -/
 example : 0 < (Tab.ket0 2).n ∧ (Tab.ket0 2).Valid ∧ (Tab.ket0 2).StabReal :=
   ⟨by decide, (Tab.isSymplectic_iff _).mp (by decide), Hilbert.ket0_stabReal 2⟩
